@@ -406,6 +406,15 @@ fn queries() -> impl Strategy<Value = CliCase> {
         2 => plural,
         1 => denom,
         2 => errors,
+        // many results in one query, failures anywhere among them
+        1 => prop::collection::vec(prop_oneof![
+                4 => gen::small_lit().prop_map(|l| l.text),
+                2 => (gen::small_lit(), gen::single_unit()).prop_map(|(l, u)| format!("{} {}", l.text, u.render())),
+                1 => Just("1 / 0".to_string()),
+                1 => Just("1 m + 1 s".to_string()),
+                1 => Just("2 ^ 64".to_string()),
+                1 => Just("1 / 3".to_string()),
+            ], 4..=40).prop_map(|v| v.iter().map(|t| format!("({})", t)).collect::<Vec<_>>().join(" ")),
     ]
     .prop_map(|query| CliCase { query })
 }
